@@ -94,7 +94,7 @@ impl<const K: usize> Polynomial<K> {
                 rhs[(k, 0)] += wxk * ys[i];
                 sums[k] += wxk;
             }
-            for (k, sums_k) in sums.iter_mut().enumerate().take(2 * K + 1).skip(K + 1) {
+            for (k, sums_k) in sums.iter_mut().enumerate().take(2 * K + 1).skip(K) {
                 *sums_k += w * xs[i].powi(k as i32);
             }
         }
